@@ -59,6 +59,20 @@ Theorem C12_validate_accepts_iff : forall semver cfg r,
 Proof. exact validate_ok_iff. Qed.
 Print Assumptions C12_validate_accepts_iff.
 
+(* "only approved contents": every plain counter of a valid report is, as a
+   WHOLE name, one of the expanded counter names configured for that very
+   program, and every stack counter's name (the text before the first
+   newline) is one of that program's configured stack names; counters and
+   stacks have separate tables *)
+Theorem C12_approved_names_listed : forall semver cfg r p,
+  valid_report semver cfg r = true -> In (Some p) (r_programs r) ->
+  (forall c v, In (c, v) (pg_counters p) ->
+     exists pc, In pc (cf_programs cfg) /\ pc_name pc = pg_name p /\ In c (pc_counters pc)) /\
+  (forall st v, In (st, v) (pg_stacks p) ->
+     exists pc, In pc (cf_programs cfg) /\ pc_name pc = pg_name p /\ In (stack_prefix st) (pc_stacks pc)).
+Proof. exact approved_names_listed. Qed.
+Print Assumptions C12_approved_names_listed.
+
 (* named by the report's week and X, inside the upload bucket (C18: ordinary
    components, resolves to exactly <bucket dir>/<week>/<x>.json, listed) *)
 Theorem C12_name_inside_bucket : forall semver cfg method size_ok r,
